@@ -101,7 +101,10 @@ inductive DrainStop | empty | suspended (e : Entry) | raised (e : Entry)
 def drainLoop (c : Core) (w : Nat) : List Entry → Core × DrainStop
   | [] => ({ c with queue := [] }, .empty)
   | e :: rest =>
-    if c.now ≥ e.expiry then drainLoop (c.emit (.qdrop e.sid c.now .expired)) w rest
+    -- `if self._writer is None or self._writer.is_closing(): return` at the top of every iteration: once the connection
+    -- is going down the remaining entries (expired ones included) stay queued for the next connection
+    if !((c.conns[w]?.map ConnSt.isLive).getD false) then ({ c with queue := e :: rest }, .empty)
+    else if c.now ≥ e.expiry then drainLoop (c.emit (.qdrop e.sid c.now .expired)) w rest
     else if !e.encOk then drainLoop (c.emit (.qdrop e.sid c.now .encErr)) w rest
     else
       match doWrite c w e with
